@@ -35,21 +35,109 @@ example : optionsOf true { style := .compressed, loadPaths := ["a", "b"], quiet 
     { style := .compressed, loadPaths := ["a", "b"], quiet := true, unicodeErrorMessages := false, allowsCharset := true } := by
   decide
 
+/-- The flag → `Options` map read off the table of builder calls of main.rs:229-234 (regenerated from the
+    source) is the hand-written one: every call present, each reading its own argument, negations as written. -/
+theorem C20_optionsOf_table_driven (f : Flags) :
+    optionsOfWith generated.optionCalls f = some (optionsOf true f) := by
+  simp [optionsOfWith, generated, Grass.CliTable.optionCalls, readsOf, boolCall, flagVal, optionsOf, List.find?]
+
+example : optionsOfWith generated.optionCalls { quiet := true, noUnicode := true } =
+    some { style := .expanded, loadPaths := [], quiet := true, unicodeErrorMessages := false, allowsCharset := true } := by
+  decide
+
+/-! ### the table -/
+
+/-- **The model's parser is the table-driven one.**  The table the model runs on (`spec`, written by hand
+    from the documented command line) equals the table `tools/translate_cli.py` regenerates from
+    crates/lib/src/main.rs on every run — every argument's id, long and short names, action (takes a value /
+    may repeat), hidden, default, case-insensitivity, possible values, conflicts, required-unless; the
+    `Options` builder calls; which positional is INPUT/OUTPUT; how the output file is opened; the order of
+    the effectful expressions of `main` — hence parsing with either table is the same function.  A new,
+    renamed, re-defaulted or re-wired flag in main.rs makes this theorem fail. -/
+theorem C20_parse_table_driven :
+    spec = generated ∧ ∀ (asFound : Bool) (argv : List String), parseArgv asFound argv = parseArgvWith generated asFound argv := by
+  have h : spec = generated := by decide
+  exact ⟨h, fun b argv => by unfold parseArgv; rw [h]⟩
+
+example : parseArgvWith generated false ["-qscompressed", "-I=x", "in.scss"] =
+    .ok ⟨{ style := .compressed, loadPaths := ["x"], quiet := true }, some "in.scss", none⟩ := by decide
+
+/-- What the table says about repetition: only `-I` or `--load-path` (clap `Append`) may be given more than once. -/
+theorem C20_table_repeatable :
+    repeatable spec "LOAD_PATH" = true ∧ repeatable spec "STDIN" = false ∧ repeatable spec "STYLE" = false ∧
+    repeatable spec "QUIET" = false ∧ repeatable spec "NO_CHARSET" = false ∧ repeatable spec "NO_UNICODE" = false := by decide
+
+/-- The documented spellings, classified by the table-driven tokenizer (finite table: `decide`). -/
+theorem C20_tokenize_documented :
+    tokenize "--stdin" = [.stdin] ∧ tokenize "--no-charset" = [.noCharset] ∧ tokenize "--no-unicode" = [.noUnicode] ∧
+    tokenize "--quiet" = [.quiet] ∧ tokenize "-q" = [.quiet] ∧
+    tokenize "--style" = [.style] ∧ tokenize "-s" = [.style] ∧ tokenize "-t" = [.style] ∧
+    tokenize "--load-path" = [.loadPath] ∧ tokenize "-I" = [.loadPath] ∧
+    tokenize "--style=compressed" = [.styleEq "compressed"] ∧ tokenize "--load-path=a b" = [.loadPathEq "a b"] ∧
+    tokenize "-Ilib" = [.loadPathEq "lib"] ∧ tokenize "-I=lib" = [.loadPathEq "lib"] ∧
+    tokenize "-qscompressed" = [.quiet, .styleEq "compressed"] ∧
+    tokenize "in.scss" = [.word "in.scss"] ∧ tokenize "-" = [.word "-"] ∧
+    tokenize "--frob" = [.unknownLong] ∧ tokenize "-x" = [.unknownLong] ∧ tokenize "--quiet=1" = [.unknownLong] ∧
+    tokenize "--indented" = [.outside] ∧ tokenize "--help" = [.outside] ∧ tokenize "-v" = [.outside] := by decide
+
+theorem styleOfValue_compressed : styleOfValue "compressed" = some .compressed := by decide
+theorem sov_compressed : styleOfValueWith spec "compressed" = some .compressed := by decide
+theorem styleOfValue_expanded : styleOfValue "expanded" = some .expanded := by decide
+theorem initState_spec : initStateWith spec = some {} := by decide
+theorem rep_lp : repeatable spec "LOAD_PATH" = true := by decide
+theorem rep_stdin : repeatable spec "STDIN" = false := by decide
+theorem rep_style : repeatable spec "STYLE" = false := by decide
+theorem rep_quiet : repeatable spec "QUIET" = false := by decide
+theorem rep_nc : repeatable spec "NO_CHARSET" = false := by decide
+theorem rep_nu : repeatable spec "NO_UNICODE" = false := by decide
+
+/-- `--style` accepts exactly the two values of main.rs's `ValueEnum`, in any letter case. -/
+theorem C20_style_values :
+    styleOfValue "expanded" = some .expanded ∧ styleOfValue "compressed" = some .compressed ∧
+    styleOfValue "COMPRESSED" = some .compressed ∧ styleOfValue "Expanded" = some .expanded ∧
+    styleOfValue "nested" = none ∧ styleOfValue "" = none ∧ styleOfValue "compact" = none := by decide
+
+/-- The positional rules read off the table (`required_unless_present("STDIN")` on INPUT,
+    `conflicts_with("STDIN")` on OUTPUT, main.rs:237-244 for which is which) are the hand-written ones. -/
+theorem assignWith_spec (f : Flags) (ps : List String) : assignWith spec f ps = assign false f ps := by
+  have hpos : spec.args.filter Grass.CliTable.ArgSpec.positional =
+      [{ id := "INPUT", requiredUnless := ["STDIN"] }, { id := "OUTPUT", conflicts := ["STDIN"] }] := by decide
+  unfold assignWith
+  rw [hpos]
+  match ps with
+  | [] => cases h : f.stdin <;> simp [assign, assignAsFound, assignSpecStdin, presentOf, lookupBound, spec, h]
+  | [a] => cases h : f.stdin <;> simp [assign, assignAsFound, assignSpecStdin, presentOf, lookupBound, spec, h]
+  | [a, b] => cases h : f.stdin <;> simp [assign, assignAsFound, assignSpecStdin, presentOf, lookupBound, spec, h]
+  | _ :: _ :: _ :: _ => cases h : f.stdin <;> simp [assign, assignAsFound, assignSpecStdin, h]
+
+theorem C20_positionals_table_driven (f : Flags) (ps : List String) :
+    assignWith generated f ps = assign false f ps := by
+  rw [← C20_parse_table_driven.1]; exact assignWith_spec f ps
+
+theorem parseToks_eq (asFound : Bool) (toks : List Tok) :
+    parseToks asFound toks = match parseLoop spec toks {} with
+      | .error e => e
+      | .ok st => assign asFound st.flags st.positionals := by
+  unfold parseToks parseToksWith
+  rw [initState_spec]
+  cases asFound <;> simp [assignWith_spec] <;> rfl
+
 /-! ### reading the command line -/
 
 theorem parseLoop_loadPaths (lps : List String) : ∀ (rest : List Tok) (st : PState),
-    parseLoop (lps.flatMap (fun p => [Tok.loadPath, Tok.word p]) ++ rest) st =
-      parseLoop rest { st with flags := { st.flags with loadPaths := st.flags.loadPaths ++ lps } } := by
+    parseLoop spec (lps.flatMap (fun p => [Tok.loadPath, Tok.word p]) ++ rest) st =
+      parseLoop spec rest { st with flags := { st.flags with loadPaths := st.flags.loadPaths ++ lps } } := by
   induction lps with
   | nil => intro rest st; simp
   | cons p ps ih =>
     intro rest st
-    simp only [List.flatMap_cons, List.cons_append, List.nil_append, parseLoop, addLoadPath]
+    simp only [List.flatMap_cons, List.cons_append, List.nil_append, parseLoop, addLoadPath, rep_lp]
+    simp only [Bool.not_true, Bool.and_false, Bool.false_eq_true, if_false]
     rw [ih]
     simp [List.append_assoc]
 
 theorem parseLoop_words (ws : List String) : ∀ (st : PState),
-    parseLoop (ws.map Tok.word) st = .ok { st with positionals := st.positionals ++ ws } := by
+    parseLoop spec (ws.map Tok.word) st = .ok { st with positionals := st.positionals ++ ws } := by
   induction ws with
   | nil => intro st; simp [parseLoop]
   | cons w ws ih => intro st; simp [parseLoop, ih, List.append_assoc]
@@ -57,20 +145,19 @@ theorem parseLoop_words (ws : List String) : ∀ (st : PState),
 /-- What the parse loop makes of the canonical command line: exactly the flags it was rendered
     from (load paths in order) and the positionals in order. -/
 theorem parseLoop_render (f : Flags) (ps : List String) :
-    parseLoop (renderToks f ps) {} =
+    parseLoop spec (renderToks f ps) {} =
       .ok { flags := f, styleSeen := decide (f.style = .compressed), positionals := ps } := by
   obtain ⟨si, sty, lps, nc, q, nu⟩ := f
   unfold renderToks
   cases si <;> cases sty <;> cases nc <;> cases q <;> cases nu <;>
-    simp [parseLoop, setStyle, styleOfValue, lower, parseLoop_loadPaths, parseLoop_words]
+    simp [parseLoop, setStyle, sov_compressed, rep_style, rep_stdin, rep_quiet, rep_nc, rep_nu, parseLoop_loadPaths, parseLoop_words]
 
 /-- **Round trip** (the code as it stands).  Parsing the canonical command line of a set of flags
     without `--stdin` gives back those flags (each flag read as itself, load-path order kept), the
     input and the output. -/
 theorem C20_parse_render (f : Flags) (h : f.stdin = false) (input : String) (output : Option String) :
     parseToks false (renderToks f (input :: output.toList)) = .ok ⟨f, some input, output⟩ := by
-  unfold parseToks
-  rw [parseLoop_render]
+  rw [parseToks_eq, parseLoop_render]
   cases output <;> simp [assign, assignAsFound, h]
 
 /-- With `--stdin`: no positional is needed; a single positional is the OUTPUT file; the source is
@@ -78,31 +165,26 @@ theorem C20_parse_render (f : Flags) (h : f.stdin = false) (input : String) (out
 theorem C20_parse_render_stdin (f : Flags) (h : f.stdin = true) (output : Option String) :
     parseToks false (renderToks f output.toList) = .ok ⟨f, none, output⟩ ∧
     inputKind ⟨f, none, output⟩ = .stdin := by
-  unfold parseToks
-  rw [parseLoop_render]
+  rw [parseToks_eq, parseLoop_render]
   cases output <;> simp [assign, assignSpecStdin, h, inputKind]
 
 /-- With `--stdin` two positionals are a usage error (`OUTPUT` conflicts with `--stdin`). -/
 theorem C20_stdin_two_positionals_usage (f : Flags) (h : f.stdin = true) (a b : String) :
     ∃ why, parseToks false (renderToks f [a, b]) = .usage why := by
-  unfold parseToks
-  rw [parseLoop_render]
+  rw [parseToks_eq, parseLoop_render]
   exact ⟨"unexpected argument", by simp [assign, assignSpecStdin, h]⟩
 
 /-- Without `--stdin` an input file is required (clap: `required_unless_present`). -/
 theorem C20_input_required (f : Flags) (h : f.stdin = false) :
     ∃ why, parseToks false (renderToks f []) = .usage why := by
-  unfold parseToks
-  rw [parseLoop_render]
+  rw [parseToks_eq, parseLoop_render]
   exact ⟨"INPUT required", by simp [assign, assignAsFound, h]⟩
 
 example : parseToks false [.loadPath, .word "x", .styleEq "Compressed", .loadPathEq "y", .quiet, .word "in.scss", .word "out.css"] =
-    .ok ⟨{ style := .compressed, loadPaths := ["x", "y"], quiet := true }, some "in.scss", some "out.css"⟩ := by
-  simp [parseToks, parseLoop, setStyle, styleOfValue, lower, addLoadPath, assign, assignAsFound]
-example : parseToks false [.quiet, .quiet, .word "in.scss"] = .usage "flag given twice" := by
-  simp [parseToks, parseLoop]
-example : parseToks false [.style, .word "nested", .word "in.scss"] = .usage "invalid style value" := by
-  simp [parseToks, parseLoop, setStyle, styleOfValue, lower]
+    .ok ⟨{ style := .compressed, loadPaths := ["x", "y"], quiet := true }, some "in.scss", some "out.css"⟩ := by decide
+example : parseToks false [.quiet, .quiet, .word "in.scss"] = .usage "flag given twice" := by decide
+example : parseToks false [.style, .word "nested", .word "in.scss"] = .usage "invalid style value" := by decide
+example : parseToks false [.style, .quiet, .word "in.scss"] = .usage "missing value" := by decide
 -- the string-level classifier, evaluated (not a proof; tied to the binary by the correspondence run)
 #guard parseArgv false ["-I", "x", "--style=Compressed", "-Iy", "-q", "in.scss", "out.css"] ==
   .ok ⟨{ style := .compressed, loadPaths := ["x", "y"], quiet := true }, some "in.scss", some "out.css"⟩
@@ -112,6 +194,11 @@ example : parseToks false [.style, .word "nested", .word "in.scss"] = .usage "in
 #guard parseArgv false ["--stdin", "a", "b"] == .usage "unexpected argument"
 #guard parseArgv true ["--stdin", "out.css"] == .ok ⟨{ stdin := true }, some "out.css", none⟩
 #guard parseArgv false ["--indented", "in.scss"] == .unsupported
+#guard parseArgv false ["--", "--stdin"] == .ok ⟨{}, some "--stdin", none⟩
+#guard parseArgv false ["-I", "--", "in.scss"] == .usage "missing value"
+#guard parseArgv false ["-I", "-", "in.scss"] == .ok ⟨{ loadPaths := ["-"] }, some "in.scss", none⟩
+#guard parseArgv false ["-x", "in.scss"] == .usage "unexpected argument"
+#guard parseArgvRaw false [none, some "in.scss"] == .usage "invalid UTF-8"
 #guard parseArgv false ["--frob", "in.scss"] == .usage "unexpected argument"
 #guard renderArgv { stdin := true, style := .compressed, loadPaths := ["p", "q"], quiet := true } [] ==
   ["--stdin", "--style", "compressed", "-I", "p", "-I", "q", "--quiet"]
@@ -123,8 +210,7 @@ theorem C20_asFound_stdin_positional_is_input (f : Flags) (h : f.stdin = true) (
     parseToks true (renderToks f [out]) = .ok ⟨f, some out, none⟩ ∧
     inputKind ⟨f, some out, none⟩ = .file ∧
     parseToks false (renderToks f [out]) = .ok ⟨f, none, some out⟩ := by
-  unfold parseToks
-  rw [parseLoop_render]
+  simp only [parseToks_eq, parseLoop_render]
   simp [assign, assignAsFound, assignSpecStdin, h, inputKind]
 
 /-! ### what a run does with the library's result -/
@@ -251,5 +337,150 @@ example : outcome {} .file .stdout (.err "Error: x" "Warning: w\n") =
 example : agrees (outcome {} .file .file (.ok "a{b:c}" "")) ⟨0, "", "", some "a{b:c}"⟩ = true := by decide
 example : agrees (outcome {} .file .stdout (.ok "a{b:c}" "")) ⟨0, "a{b:c}Warning", "", none⟩ = false := by decide
 example : agrees (outcome {} .file .stdout (.err "E" "")) ⟨0, "", "E\n", none⟩ = false := by decide
+
+/-! ### `main` as a sequence of effects; every error path -/
+
+/-- The effect trace and the outcome function tell the same story: for the code as it stands
+    (`openFirst = true`), a readable stdin and a working sink, the run's exit class, stdout, stderr and
+    output file are `outcome` applied to the library's result — where the library saw a TRUNCATED input
+    exactly when OUTPUT names the INPUT file. -/
+theorem C20_runMain_is_outcome (f : Flags) (i : InputKind) (e : Env)
+    (hs : i = .stdin → e.stdinUtf8 = true) (hk : e.sinkFails = false) :
+    let r := runMain true i e
+    let o := outcome f i e.output (e.libOf (e.output == .file && e.outputIsInput && i == .file))
+    (r.exitCode == 0) = o.exitZero ∧ r.stdout = o.stdout ∧ r.stderr = o.stderr ∧ r.file = o.file := by
+  obtain ⟨out, isIn, su, libOf, sf⟩ := e
+  simp only at hs hk
+  subst hk
+  cases i <;> cases out <;> cases isIn <;> simp_all [runMain, outcome, writeSteps] <;>
+    (try split) <;> (try simp_all)
+
+/-- **Every error path.**  Whatever goes wrong after clap — the output cannot be opened, stdin is not
+    UTF-8, the library returns an error (missing / unreadable / non-UTF-8 / directory input, syntax or
+    runtime error), the sink refuses the CSS — in either order of opening: the exit code is exactly 1,
+    NOTHING is written to stdout, no successful write step happens, and the output file is untouched
+    (`none`) or left empty (`some ""`); with a working sink it is left empty exactly when the code opens
+    it first (as it stands) and it could be opened. -/
+theorem C20_error_paths (openFirst : Bool) (i : InputKind) (e : Env) :
+    let r := runMain openFirst i e
+    r.exitCode ≠ 0 →
+      r.exitCode = 1 ∧ r.stdout = "" ∧ Step.write true ∉ r.steps ∧ (r.file = none ∨ r.file = some "") ∧
+      (e.sinkFails = false → (r.file = some "" ↔ (openFirst = true ∧ e.output = .file))) := by
+  obtain ⟨out, isIn, su, libOf, sf⟩ := e
+  cases openFirst <;> cases i <;> cases out <;> cases su <;> cases sf <;>
+    simp [runMain, writeSteps] <;> (try split) <;> (try simp_all) <;> (try split) <;> (try simp_all)
+
+/-- On success: exit 0, the last three effects are write, flush, exit 0, and the library's CSS is in the
+    sink and nowhere else. -/
+theorem C20_success_path (openFirst : Bool) (i : InputKind) (e : Env) (hk : e.sinkFails = false) :
+    (runMain openFirst i e).exitCode = 0 →
+      [Step.write true, .flush true, .exit 0] <:+ (runMain openFirst i e).steps ∧
+      ∃ css w t, e.libOf t = .ok css w ∧ (runMain openFirst i e).stderr = [.text w] ∧
+        ((e.output = .stdout ∧ (runMain openFirst i e).stdout = css ∧ (runMain openFirst i e).file = none) ∨
+         (e.output = .file ∧ (runMain openFirst i e).stdout = "" ∧ (runMain openFirst i e).file = some css)) := by
+  obtain ⟨out, isIn, su, libOf, sf⟩ := e
+  simp only at hk
+  subst hk
+  cases hl : libOf (openFirst && out == .file && isIn && i == .file) with
+  | err rr w =>
+    cases openFirst <;> cases i <;> cases out <;> cases su <;> simp_all [runMain, writeSteps]
+  | ok css w =>
+    intro h0
+    refine ⟨?_, css, w, _, hl, ?_⟩ <;> revert h0 <;>
+      cases openFirst <;> cases i <;> cases out <;> cases su <;> simp_all [runMain, writeSteps, List.suffix_cons_iff]
+
+/-- Order of effects, the code as it stands: when an OUTPUT is named, opening it is the FIRST effect
+    (before stdin is read and before anything is compiled); every run ends with `exit` of its code. -/
+theorem C20_order_of_effects (i : InputKind) (e : Env) :
+    (e.output ≠ .stdout → (runMain true i e).steps.head? = some (.openOutput (e.output == .file))) ∧
+    (∀ b, (runMain b i e).steps.getLast? = some (.exit (runMain b i e).exitCode)) := by
+  obtain ⟨out, isIn, su, libOf, sf⟩ := e
+  refine ⟨fun h => ?_, fun b => ?_⟩
+  · cases i <;> cases out <;> cases su <;> simp_all [runMain, writeSteps] <;> (try split) <;> (try simp_all) <;> (try split) <;> (try simp_all)
+  · cases b <;> cases i <;> cases out <;> cases su <;> simp [runMain, writeSteps] <;> (try split) <;> (try simp_all) <;> (try split) <;> (try simp_all)
+
+/-- A usage error (unknown flag, repeated flag, bad `--style` value, missing value, missing INPUT,
+    too many positionals, `--stdin` with two positionals, an argument that is not UTF-8): clap exits 2
+    before `main` does anything — nothing on stdout, no file opened, nothing compiled. -/
+theorem C20_usage_error_run (openFirst : Bool) (argv : List (Option String)) (e : Env) (why : String)
+    (h : parseArgvRaw false argv = .usage why) :
+    runCli openFirst argv e = some { steps := [.clapUsage, .exit 2], exitCode := 2, stdout := "", stderr := [.clapError],
+                                     file := none, inputDestroyed := false } := by
+  simp [runCli, h]
+
+example : parseArgvRaw false [some "--frob", some "in.scss"] = .usage "unexpected argument" := by decide
+example : parseArgvRaw false [some "in.scss", none] = .usage "invalid UTF-8" := by decide
+
+/-- The whole tool, every failure: if `runCli` does not exit 0 then stdout is empty and the output file
+    is untouched or empty. -/
+theorem C20_cli_failure_no_stdout (openFirst : Bool) (argv : List (Option String)) (e : Env) (r : Run)
+    (h : runCli openFirst argv e = some r) (hne : r.exitCode ≠ 0) :
+    r.stdout = "" ∧ (r.file = none ∨ r.file = some "") ∧ (r.exitCode = 1 ∨ r.exitCode = 2) := by
+  unfold runCli at h
+  split at h
+  · simp at h
+  · simp at h; subst h; simp
+  · simp at h; subst h
+    have := C20_error_paths openFirst _ e hne
+    exact ⟨this.2.1, this.2.2.2.1, Or.inl this.1⟩
+
+/-- The specified order (compile, then open the output) and the order as it stands agree on exit code
+    and stdout always, and on the output file of every successful run, as long as OUTPUT is not the INPUT file. -/
+theorem C20_open_order_observable_only_on_failure (i : InputKind) (e : Env) (h : e.outputIsInput = false) :
+    (runMain true i e).exitCode = (runMain false i e).exitCode ∧ (runMain true i e).stdout = (runMain false i e).stdout ∧
+    ((runMain true i e).exitCode = 0 → (runMain true i e).file = (runMain false i e).file) := by
+  obtain ⟨out, isIn, su, libOf, sf⟩ := e
+  simp only at h
+  subst h
+  cases i <;> cases out <;> cases su <;> simp [runMain, writeSteps] <;> (try split) <;> (try simp_all) <;> (try split) <;> (try simp_all)
+
+/-- As found (known finding C20-output-is-input): `grass in.scss in.scss` opens — and truncates — the
+    output BEFORE reading the input, so the library compiles an empty file: exit 0, the file is empty, the
+    source is lost.  In the specified order the file receives the CSS of its former content. -/
+theorem C20_asFound_output_is_input_destroys_source (e : Env) (css w : String)
+    (ho : e.output = .file) (hi : e.outputIsInput = true) (hk : e.sinkFails = false)
+    (hl : e.libOf false = .ok css w) (ht : e.libOf true = .ok "" "") :
+    (runMain true .file e).exitCode = 0 ∧ (runMain true .file e).inputDestroyed = true ∧
+    (runMain true .file e).file = some "" ∧ Step.compile true ∈ (runMain true .file e).steps ∧
+    (runMain false .file e).inputDestroyed = false ∧ (runMain false .file e).file = some css := by
+  obtain ⟨out, isIn, su, libOf, sf⟩ := e
+  simp only at ho hi hk hl ht
+  subst ho hi hk
+  simp [runMain, hl, ht, writeSteps]
+
+example : (runMain true .file { output := .file, outputIsInput := true, libOf := fun t => if t then .ok "" "" else .ok "a{b:c}" "" }).file = some "" := by
+  decide
+example : (runMain true .stdin { output := .file, stdinUtf8 := false, libOf := fun _ => .ok "x" "" }).steps =
+    [.openOutput true, .readStdin false, .returnErr, .exit 1] := by decide
+example : (runMain true .file { output := .stdout, libOf := fun _ => .err "Error: Is a directory (os error 21)\n" "" }).stderr =
+    [.text "", .text "Error: Is a directory (os error 21)\n\n"] := by decide
+
+/-! ### what `StdLogger` prints -/
+
+theorem C20_renderLog_append (a b : List LogEvent) : renderLog (a ++ b) = renderLog a ++ renderLog b := by
+  induction a with
+  | nil => simp [renderLog]
+  | cons x xs ih => simp [renderLog, ih, String.append_assoc]
+
+/-- `@warn` / `@debug` output goes to stderr only: what `StdLogger` printed (the rendering of the Logger
+    calls, in order) is the first thing on stderr, and exit code, stdout, the output file and the steps'
+    shape do not depend on it; without Logger calls (`--quiet`: the evaluator makes none) nothing is printed. -/
+theorem C20_log_to_stderr_only (openFirst : Bool) (i : InputKind) (out : OutputKind) (isIn su sf : Bool)
+    (css : String) (evs₁ evs₂ : List LogEvent) :
+    let r₁ := runMain openFirst i { output := out, outputIsInput := isIn, stdinUtf8 := su, sinkFails := sf, libOf := fun _ => libOk css evs₁ }
+    let r₂ := runMain openFirst i { output := out, outputIsInput := isIn, stdinUtf8 := su, sinkFails := sf, libOf := fun _ => libOk css evs₂ }
+    r₁.exitCode = r₂.exitCode ∧ r₁.stdout = r₂.stdout ∧ r₁.file = r₂.file ∧
+    (Step.compile false ∈ r₁.steps ∨ Step.compile true ∈ r₁.steps → r₁.stderr.head? = some (.text (renderLog evs₁))) ∧
+    renderLog [] = "" := by
+  cases openFirst <;> cases i <;> cases out <;> cases su <;> cases sf <;>
+    simp [runMain, libOk, writeSteps, renderLog] <;> (try split) <;> (try simp_all)
+
+#guard renderLog [⟨.warn, "ml.scss", 0, 6, "line1\nline2"⟩, ⟨.debug, "ml.scss", 1, 2, "x\ny"⟩] ==
+  "Warning: line1\nline2\n    ./ml.scss:1:7\nml.scss:2 DEBUG: x\ny\n"
+#guard agreesRun (runMain true .file { libOf := fun _ => libErr "Error: e\n" [⟨.warn, "a.scss", 2, 0, "w"⟩] })
+  ⟨1, "", "Warning: w\n    ./a.scss:3:1\nError: e\n\n", none⟩
+#guard !agreesRun (runMain true .file { libOf := fun _ => libOk "a{b:c}" [⟨.warn, "a.scss", 2, 0, "w"⟩] })
+  ⟨0, "a{b:c}Warning: w\n    ./a.scss:3:1\n", "", none⟩
+#guard (runCli true [some "--frob"] { libOf := fun _ => .ok "" "" }).map (·.exitCode) == some 2
 
 end Grass.Cli
